@@ -207,3 +207,8 @@ pub fn pforest(dom: &WeakDom, roots: &[Ref]) -> Value {
     }
     json!({"roots": roots.iter().map(|r| map.get(r).copied().unwrap_or(-1)).collect::<Vec<_>>(), "inst": insts})
 }
+
+/// Fingerprint of the projection of a forest (for forests too large to be logged in full).
+pub fn forest_fp(dom: &WeakDom, roots: &[Ref]) -> String {
+    blake3::hash(pforest(dom, roots).to_string().as_bytes()).to_hex().to_string()
+}
